@@ -9,7 +9,8 @@ SMALL_KEYS = ["a", "b", "c", "", "k.x"]
 SPECIAL_TEXT = ["", ".", "a.b", '"', "\\", "\u0000", "\U0001F600", " ", "é", " ", "\n",
                 "null", "0", "_data", "filename"]
 SPECIAL_FLOATS = [-0.0, 0.0, 1.0, -1.5, 1e308, 5e-324, 0.1, 1e-7, 123456789.125]
-BIG_INTS = [2**63, -(2**63) - 1, 2**64, 2**70 + 1, -(2**80), 10**30]
+BIG_INTS = [2**63, -(2**63) - 1, 2**64, 2**70 + 1, -(2**80), 10**30, 2**1024, -(2**1024) - 1, 10**400,
+            -(10**1000), 2**1023, 3 * 10**308]
 
 
 class Dom:
